@@ -62,8 +62,8 @@ impl Engine for ModelEngine {
   }
   fn probes(&self) -> Vec<&'static str> {
     match self.flavour {
-      Flavour::C04 => vec!["op.commit", "op.rollback", "op.reopen", "op.compact", "probe.old_reader_checked"],
-      Flavour::C14 => vec!["probe.compaction_merged", "probe.compaction_refused", "probe.queries_compared"],
+      Flavour::C04 => vec!["op.commit", "op.rollback", "op.reopen", "op.compact", "probe.old_reader_checked", "probe.long_documents", "probe.large_id_space_runs"],
+      Flavour::C14 => vec!["probe.compaction_merged", "probe.compaction_refused", "probe.queries_compared", "probe.long_documents", "probe.large_id_space_runs"],
       Flavour::C28 => vec!["op.relocate", "probe.original_listing_checked"],
     }
   }
@@ -145,9 +145,9 @@ impl Engine for CrashEngine {
   }
   fn probes(&self) -> Vec<&'static str> {
     if self.c02 {
-      vec!["fault.crash", "fault.crash_torn_log_tail", "probe.crash_with_queued_ops_on_disk", "probe.crash_published_inflight_commit", "checks.recovery"]
+      vec!["fault.crash", "fault.crash_torn_log_tail", "probe.crash_with_queued_ops_on_disk", "probe.crash_published_inflight_commit", "checks.recovery", "probe.long_documents", "probe.large_id_space_runs"]
     } else {
-      vec!["fault.crash", "probe.crash_published_inflight_commit", "image.torn", "image.dev_journal_short"]
+      vec!["fault.crash", "probe.crash_published_inflight_commit", "image.torn", "image.dev_journal_short", "probe.long_documents", "probe.large_id_space_runs"]
     }
   }
 }
